@@ -20,6 +20,7 @@ Request line:  `id enc <op> key=value …`
     cmp_tsk      as cmp_gglwe without `pt`: compressed tensor key (the model derives the tensor secret from `sk`)
     cmp_brk      bits n b kxe size rank dnum sk=<cols> sklwe=<ints> top gseeds=<4 words;…> sub=<words;…> seeds child es:
                  compressed blind-rotation key, all GGSWs; answer as cmp_ggsw over all GGSWs in order
+    lwe_dec      b nl body=<ints> xa=<raw words>: `decompress_lwe` (with its layout assertion) of (body, Source::new(seed) words)
     bundle_order layout=<cbt|bdd> ksg=<0|1> gal=<Galois elements, any order> atkw atke brkw brke tskw tske ksgw ksge kslw ksle
                  (`…w` mask words, `…e` error polynomials one sub-key of that kind consumes): answer
                  `<name:first mask word:mask words:first error polynomial:error polynomials;…>` in encryption order
@@ -174,6 +175,10 @@ def handle (ts : List String) : String :=
           (kvPolys ts "sk") expand [] (kvPolys ts "es") with
       | none => "panic"
       | some cells => showCells b n rank ((rank + 1) * dnum) expand cells
+    | "lwe_dec" =>
+      match Core.decompressLweRust b (kvNat ts "nl") (kvInts ts "body") (natsOf ts "xa") with
+      | none => "panic"
+      | some c => showCol c
     | "bundle_order" =>
       let gal := kvInts ts "gal"
       let order := if (kv ts "layout").getD "" == "bdd" then Core.bddOrder (kvNat ts "ksg" != 0) gal else Core.cbtOrder gal
